@@ -9,6 +9,7 @@ import JediVerif.Spec.Pairing
 import JediVerif.Spec.Rand
 import JediVerif.Impl.ConstsFq
 import JediVerif.Gen.AsmX86
+import JediVerif.Impl.FpUtils
 
 namespace Jedi.Driver
 
@@ -221,6 +222,12 @@ def PF.hex (x : Fin f.n) : String := toHex (f.bits / 4) (f.mont x)
 def PF.next : P (Fin f.n) := do f.un (← nextHex)
 /-- unused topmost bits of the limb array: 3 for Fq, 1 for Fr -/
 def PF.maskBits : Nat := if f.bits == 384 then 381 else 255
+/-- the library's constants the `Impl/FpUtils.lean` models take as parameters: `r2_value`, top-byte mask -/
+def PF.r2 : Nat := if f.bits == 384 then Gen.Consts.fq_R2 else Gen.Consts.fr_R2
+def PF.maskByte : Nat := if f.bits == 384 then 0x1F else 0x7F
+/-- the hand-written model of the real routine (`Impl/FpUtils.lean`) must reproduce the real output exactly -/
+def implTie (op : String) (model got : List String) : Except String Unit :=
+  expectToks s!"{op}: Impl model differs" model got
 
 def judgeFp (op : String) (out : List String) : P Unit := do
   match op with
@@ -231,12 +238,15 @@ def judgeFp (op : String) (out : List String) : P Unit := do
   | "fp_neg" => let a ← f.next; let _ ← next; expectToks op [f.hex (-a)] out
   | "fp_sqr" => let a ← f.next; let _ ← next; expectToks op [f.hex (a * a)] out
   | "fp_inv" =>
-    let a ← f.next; let _ ← next
+    let raw ← nextHex; let a ← f.un raw; let _ ← next
     let i := f.inv a
     if a != 0 && a * i != 1 then throw "spec inverse self-check failed"
     expectToks op [f.hex i] out
+    implTie op [toHex (f.bits / 4) (Impl.fpInverseRaw f.n f.bits f.r2 raw)] out
   | "fp_pow" => let a ← f.next; let e ← nextHex; let _ ← next; expectToks op [f.hex (npow a e)] out
+                implTie op [f.hex (Impl.fpExponentiate f.bits a e)] out
   | "fp_leg" => let a ← f.next; expectToks op [toString (finLegendre a)] out
+                implTie op [toString (Impl.legendre f.n f.bits a)] out
   | "fp_set" => let x ← nextHex; expectToks op [f.hex (Fin.ofNat f.n x)] out
   | "fp_get" => let a ← f.next; expectToks op [toHex (f.bits / 4) a.val] out
   | "fp_imf" =>
@@ -262,6 +272,8 @@ def judgeFp (op : String) (out : List String) : P Unit := do
     let y := x % 2 ^ f.maskBits
     let y := if y < f.n then y else y - f.n
     expectToks op [boolTok top, toHex (f.bits / 4) y] out
+    let (mtop, my) := Impl.hashReduce f.n f.bits f.maskByte x
+    implTie op [boolTok mtop, toHex (f.bits / 4) my] out
   | "fp_rand" =>
     -- rejection sampling from the byte stream: little-endian chunks of bits/8 bytes, unused
     -- top bits masked; the stream is zero-padded once exhausted (as the harness does)
@@ -272,6 +284,8 @@ def judgeFp (op : String) (out : List String) : P Unit := do
     let used := st'.used
     let over := st'.over
     expectToks op [toHex (f.bits / 4) v, toString used, toString over] out
+    let (mv, mst) := Impl.randomBelow f.n f.bits f.maskByte (st.fuel chunk) st
+    implTie op [toHex (f.bits / 4) mv, toString mst.used, toString mst.over] out
   | "fp_sqrt" =>
     let a ← f.next; let _ ← next
     match out with
@@ -281,6 +295,9 @@ def judgeFp (op : String) (out : List String) : P Unit := do
         let y ← f.un raw
         if finLegendre a != -1 then
           if y * y != a then throw s!"fp_sqrt: result squared is not the input"
+        match Impl.fpSqrtByBits f.bits a with
+        | some my => implTie op [f.hex my] out
+        | none => throw "fp_sqrt: Impl model differs (model runs out of fuel, the real routine returned)"
       | none => throw "fp_sqrt: bad output"
     | _ => throw "fp_sqrt: malformed output"
   | _ => throw s!"unknown op {op}"
@@ -298,9 +315,11 @@ def judgeFqOnly (op : String) (out : List String) : P Unit := do
     let bs ← nextBytes
     let v := ofBytesBE bs % 2 ^ 381
     expectToks op [hexQ (Fin.ofNat q v)] out
+    implTie op [hexQ (Impl.fqReadBE bs)] out
   | "fp_wrbe" =>
     let a ← nextFq
     expectToks op [bytesToHex (toBytesBE 48 a.val)] out
+    implTie op [bytesToHex (Impl.fqWriteBE a)] out
   | _ => throw s!"unknown op {op}"
 
 end Jedi.Driver
